@@ -1417,6 +1417,13 @@ func (c *compiler) compileArray(e *Array) error {
 		return nil
 	}
 	l := (len(c.codes) - pc - 3) / 3
+	n := 1 // number of comma separated elements
+	for q := e.Query; q.Op == OpComma; q = q.Left {
+		n++
+	}
+	if n != l {
+		return nil
+	}
 	for i := range l {
 		if c.codes[pc+i].op != opfork ||
 			c.codes[pc+i*2+l].op != opconst ||
